@@ -160,6 +160,49 @@ class Justifications:
         pd = prog.cls('ast', 'PortDirection')
         if len(pd.enum_members) != 2:
             return None
+        from .shared import dzn_elements_by_interpretation
+        sem_de = dzn_elements_by_interpretation(self.ctx)
+        by_interpretation = sem_de is not None and not sem_de['C03.injected']
+        if sem_de is not None and not by_interpretation:
+            return None
+        if not by_interpretation:
+            r_ = self._lists_by_direction(cde, pd)
+            if r_ is None:
+                return None
+        # every CppPorts of the package is a comprehension over DznElements.provides_ports or .requires_ports - written in
+        # place, or in a helper that is handed one of the two lists at each of its call sites
+        cp = prog.cls('adv_shell.common', 'CppPorts')
+        sites = self.ex._ctor_sites(cp)
+        if len(sites) < 2:
+            return None
+
+        def side_list(f_: FuncInfo, e_: ast.expr, depth: int = 0) -> bool:
+            if isinstance(e_, ast.Attribute) and e_.attr in ('provides_ports', 'requires_ports'):
+                return True
+            if depth < 3 and isinstance(e_, ast.Name) and e_.id in [a_.arg for a_ in f_.params()] and \
+                    e_.id not in self.ctx.cg.env(f_)._assign_sites:
+                callers = [(c_, n_) for c_, n_, _k in self.ctx.cg.callers(f_) if isinstance(n_, ast.Call)]
+                if not callers:
+                    return False
+                for c_, n_ in callers:
+                    b_ = prog.bind_call(c_.module, n_, f_)
+                    if e_.id not in b_ or not side_list(c_, b_[e_.id], depth + 1):
+                        return False
+                return True
+            return False
+        for sfn, call in sites:
+            arg = call.args[0] if call.args else next((k.value for k in call.keywords if k.arg == 'ports'), None)
+            if not (isinstance(arg, ast.ListComp) and len(arg.generators) == 1 and side_list(sfn, arg.generators[0].iter)):
+                return None
+        return ('every CppPorts is a comprehension over DznElements.provides_ports / requires_ports, and ' +
+                ('create_dzn_elements puts exactly the provides ports into the first and requires ports into the second (interpreted on '
+                 'three port orders, E7)' if by_interpretation else
+                 'create_dzn_elements fills them in the two arms of `port.direction == PROVIDES` of a two-member enum') +
+                ' (verified on this run)')
+
+    def _lists_by_direction(self, cde: FuncInfo, pd: ClassInfo) -> Optional[bool]:
+        """Shape form: the two port lists of create_dzn_elements are filled in the two arms of the direction test."""
+        prog = self.ctx.prog
         seen = {'provides_ports': 0, 'requires_ports': 0}
         # which local list becomes which field of the returned DznElements (the local names do not matter)
         de = prog.cls('adv_shell.common', 'DznElements')
@@ -224,23 +267,7 @@ class Justifications:
                 seen[want_role] += 1
         if not all(seen.values()):
             return None
-        build = prog.func('adv_shell', 'Builder.build')
-        n_ctor = 0
-        for n in iter_own_nodes(build.node):
-            if isinstance(n, ast.Call) and prog.resolve_expr_symbol(build.module, n.func) is prog.cls('adv_shell.common', 'CppPorts'):
-                n_ctor += 1
-                arg = n.args[0] if n.args else None
-                if not (isinstance(arg, ast.ListComp) and len(arg.generators) == 1 and
-                        isinstance(arg.generators[0].iter, ast.Attribute) and
-                        arg.generators[0].iter.attr in ('provides_ports', 'requires_ports')):
-                    return None
-        # other constructions of CppPorts in the package?
-        total = len(self.ex._ctor_sites(prog.cls('adv_shell.common', 'CppPorts')))
-        if n_ctor != 2 or total != 2:
-            return None
-        return ('both CppPorts are comprehensions over DznElements.provides_ports / requires_ports, which '
-                'create_dzn_elements fills in the two arms of `port.direction == PROVIDES` of a two-member enum '
-                '(verified on this run)')
+        return True
 
     def _member_var(self, fn: FuncInfo, n: ast.Attribute) -> Optional[str]:
         """`p.member_var.x` where p ranges over `<CppPorts>.mts_ports` (in this function, or in every caller that hands p in)."""
@@ -844,58 +871,73 @@ def _rejects(ctx, ex: ExcAnalysis, abs_: Abs):
                 f'ast.{k.name} derives from ast.{supers[0].name}: a {k.name} passes every guard that admits a {supers[0].name} '
                 f'(isinstance / get_single_instance), so an input that must be refused - e.g. a {k.name.lower()} encapsulee - is '
                 f'accepted', node=k.node)
-    # multiclient settings
-    n_mc = 0
-    for s in ast.walk(cmc.node):
-        if isinstance(s, ast.Raise):
-            exc = ex.exc_name(cmc, s.exc)
+    # multiclient settings: decided on scenario models when create_dzn_elements can be interpreted (E7)
+    from .shared import dzn_elements_by_interpretation
+    sem_de = dzn_elements_by_interpretation(ctx)
+    if sem_de is not None:
+        probs_ = sem_de['C13.rejects'] + sem_de['C04.validate'] + sem_de['C07.kind']
+        for label_, keys_ in (('multi-client configuration naming a requires port', ('names the requires port',)),
+                              ('multi-client configuration naming no port', ('names a port that does not exist',)),
+                              ('unknown claim / release event', ('claim event the interface', 'release event the interface')),
+                              ('granting value / reply type', ('granting value', 'replies void', 'replies an extern')),
+                              ('fixture only where configured', ('gets a multi-client fixture', 'gets no fixture'))):
+            mine_ = [p_ for p_ in probs_ if any(k_ in p_ for k_ in keys_)]
+            run.add('C13.rejects', cde.module.name, cde.qualname, label_, not mine_,
+                    f'{label_}: refused with the documented library error (create_dzn_elements interpreted on the scenario models)'
+                    if not mine_ else '; '.join(mine_[:2]))
+    if sem_de is None:
+        # multiclient settings
+        n_mc = 0
+        for s in ast.walk(cmc.node):
+            if isinstance(s, ast.Raise):
+                exc = ex.exc_name(cmc, s.exc)
+                n_mc += 1
+                run.add('C13.rejects', cmc.module.name, cmc.qualname, s, ex.is_library_error(exc),
+                        f'invalid multi-client setting rejected with {exc.split(".")[-1]}', node=s)
+        from .shared import rejecting_calls
+        for c_, h_, r_ in rejecting_calls(ctx, cmc):
+            exc = ex.exc_name(h_, r_.exc)
             n_mc += 1
-            run.add('C13.rejects', cmc.module.name, cmc.qualname, s, ex.is_library_error(exc),
-                    f'invalid multi-client setting rejected with {exc.split(".")[-1]}', node=s)
-    from .shared import rejecting_calls
-    for c_, h_, r_ in rejecting_calls(ctx, cmc):
-        exc = ex.exc_name(h_, r_.exc)
-        n_mc += 1
-        run.add('C13.rejects', cmc.module.name, cmc.qualname, c_, ex.is_library_error(exc),
-                f'invalid multi-client setting rejected with {exc.split(".")[-1]} (in {h_.qualname})', node=c_)
-    if n_mc < 4:
-        run.violation('C13.rejects', cmc.module.name, cmc.qualname, 'check_multiclient_cfg rejections',
-                      f'only {n_mc} rejections in check_multiclient_cfg (claim event, reply type, reply value, release event)')
-    # multiclient configuration that matches no PROVIDES port: the rejection must be decided over the provides ports only
-    def expand(e: ast.AST, depth: int = 0) -> str:
-        """Source text of e with single-definition locals of create_dzn_elements expanded."""
-        out = ast.unparse(e)
-        if depth > 3:
+            run.add('C13.rejects', cmc.module.name, cmc.qualname, c_, ex.is_library_error(exc),
+                    f'invalid multi-client setting rejected with {exc.split(".")[-1]} (in {h_.qualname})', node=c_)
+        if n_mc < 4:
+            run.violation('C13.rejects', cmc.module.name, cmc.qualname, 'check_multiclient_cfg rejections',
+                          f'only {n_mc} rejections in check_multiclient_cfg (claim event, reply type, reply value, release event)')
+        # multiclient configuration that matches no PROVIDES port: the rejection must be decided over the provides ports only
+        def expand(e: ast.AST, depth: int = 0) -> str:
+            """Source text of e with single-definition locals of create_dzn_elements expanded."""
+            out = ast.unparse(e)
+            if depth > 3:
+                return out
+            for nm in {x.id for x in ast.walk(e) if isinstance(x, ast.Name)}:
+                defs = [a for a in iter_own_nodes(cde.node) if isinstance(a, ast.Assign) and len(a.targets) == 1
+                        and isinstance(a.targets[0], ast.Name) and a.targets[0].id == nm]
+                if len(defs) == 1:
+                    out += ' <- ' + expand(defs[0].value, depth + 1)
             return out
-        for nm in {x.id for x in ast.walk(e) if isinstance(x, ast.Name)}:
-            defs = [a for a in iter_own_nodes(cde.node) if isinstance(a, ast.Assign) and len(a.targets) == 1
-                    and isinstance(a.targets[0], ast.Name) and a.targets[0].id == nm]
-            if len(defs) == 1:
-                out += ' <- ' + expand(defs[0].value, depth + 1)
-        return out
 
-    post = []
-    for s in ast.walk(cde.node):
-        if isinstance(s, ast.If) and always_raises(s.body) and not s.orelse:
-            conds = [s.test] + [c for c, pol in flow.path_conditions(s) if pol]
-            if not any('multiclient' in txt(c) for c in conds):
-                continue
-            r = next(x for x in ast.walk(s) if isinstance(x, ast.Raise))
-            post.append((s, conds, ex.exc_name(cde, r.exc)))
-    if not post:
-        run.add('C13.rejects', cde.module.name, cde.qualname, 'multiclient post-check', False,
-                'no check that the multi-client configuration matched a port')
-    for s, conds, exc in post:
-        full = ' && '.join(expand(c) for c in conds)
-        over_provides = 'provides' in full
-        over_requires = 'requires' in full
-        ok = ex.is_library_error(exc) and over_provides and not over_requires
-        run.add('C13.rejects', cde.module.name, cde.qualname, s, ok,
-                'a multi-client configuration that matches no provides port is rejected' if ok else
-                ('the multi-client port check is decided over data that includes the requires ports '
-                 f'(`{full[:160]}`): a configuration naming a requires port passes although no port becomes multi-client'
-                 if over_requires else
-                 f'the multi-client port check (`{full[:120]}`) is not decided over the provides ports'), node=s)
+        post = []
+        for s in ast.walk(cde.node):
+            if isinstance(s, ast.If) and always_raises(s.body) and not s.orelse:
+                conds = [s.test] + [c for c, pol in flow.path_conditions(s) if pol]
+                if not any('multiclient' in txt(c) for c in conds):
+                    continue
+                r = next(x for x in ast.walk(s) if isinstance(x, ast.Raise))
+                post.append((s, conds, ex.exc_name(cde, r.exc)))
+        if not post:
+            run.add('C13.rejects', cde.module.name, cde.qualname, 'multiclient post-check', False,
+                    'no check that the multi-client configuration matched a port')
+        for s, conds, exc in post:
+            full = ' && '.join(expand(c) for c in conds)
+            over_provides = 'provides' in full
+            over_requires = 'requires' in full
+            ok = ex.is_library_error(exc) and over_provides and not over_requires
+            run.add('C13.rejects', cde.module.name, cde.qualname, s, ok,
+                    'a multi-client configuration that matches no provides port is rejected' if ok else
+                    ('the multi-client port check is decided over data that includes the requires ports '
+                     f'(`{full[:160]}`): a configuration naming a requires port passes although no port becomes multi-client'
+                     if over_requires else
+                     f'the multi-client port check (`{full[:120]}`) is not decided over the provides ports'), node=s)
     # unknown / unassigned selection: C03 rules decide the details; here: the match call dominates port construction
     match_calls = [n for n in iter_own_nodes(cde.node) if isinstance(n, ast.Call) and isinstance(n.func, ast.Attribute)
                    and n.func.attr == 'match']
